@@ -44,7 +44,7 @@ def _group(args):
     """Executed in a worker process: everything recorded for one wire."""
     wire, bnd, scheds, forms, modelhdr = args
     cfg = {"op": "cfg", "bnd": list(bnd), "wire": list(wire), "ref": mp.ref_of(wire, bnd),
-           "formref": mp.run_form(wire, bnd, len(wire) + 1), "modelhdr": modelhdr}
+           "formref": mp.run_form(wire, bnd, len(wire) + 1), "modelhdr": modelhdr, "ctype": "multipart"}
     return cfg, _runs_for(wire, bnd, scheds) + _form_runs(wire, bnd, forms)
 
 
@@ -170,7 +170,7 @@ def replay(ctx: Ctx, data):
     w, b = bytes(case["wire"]), bytes(case["bnd"])
     lim = (None if case["maxmem"] < 0 else case["maxmem"], None if case["maxparts"] < 0 else case["maxparts"])
     cfg = {"t": 0, "op": "cfg", "bnd": list(b), "wire": list(w), "ref": mp.ref_of(w, b),
-           "formref": mp.run_form(w, b, len(w) + 1), "modelhdr": False}
+           "formref": mp.run_form(w, b, len(w) + 1), "modelhdr": False, "ctype": "multipart"}
     if case["api"] == "decoder":
         runs = _runs_for(w, b, [case["chunks"]], lim)
     else:
